@@ -6,7 +6,7 @@
 (*        configuration values; kept/beta/theta/path as reported by the code      *)
 (*   sky  {sunAlt, moonAlt, phase, sunCut, moonCut, minPhase, dark}               *)
 (*   ret  {nkept, nret}   number kept vs lengths of the __call__ return arrays    *)
-EXTENDS TraceKit, GeomTarget
+EXTENDS TraceKit, GeomTarget, Sequences
 
 Eps == FDec("1e-9")
 NearKeep(e) == LET a == Nadir(e.alt) IN
@@ -35,6 +35,10 @@ Check(e) ==
       [] e.kind = "sky" ->
            Fails(<< <<"C13 dark sky iff Sun below its limit and (Moon below its limit or phase angle above the minimum)",
                       NearDark(e) \/ (e.dark <=> Dark(e.sunAlt, e.moonAlt, e.phase, e.sunCut, e.moonCut, e.minPhase))>> >>)
+      [] e.kind = "grid" ->
+           Fails(<< <<"C13 exactly N instants", Len(e.tsec) = e.N>>,
+                    <<"C13 instants are N equally spaced times covering [t0, t0 + T)",
+                      \A k \in 1..Len(e.tsec) : FLe(FAbs(FSub(e.tsec[k], Offset(k - 1, e.N, e.T))), FDec("1e-6")) /\ FLt(e.tsec[k], e.T)>> >>)
       [] e.kind = "ret" -> Fails(<< <<"C13 the arrays returned for a throw have one entry per kept instant", e.nkept = e.nret>> >>)
       [] OTHER -> <<"unknown event kind">>
 
